@@ -415,8 +415,9 @@ def teleport(
             and isinstance(state.grid[position], Telepod)
             and state.grid[position].color == telepod.color
         ]
-        i = rng.choice(len(positions))
-        state.agent.position = positions[i]
+        if positions:
+            i = rng.choice(len(positions))
+            state.agent.position = positions[i]
 
 
 def factory(name: str, **kwargs) -> TransitionFunction:
